@@ -137,8 +137,25 @@ def grid(ctx):
         ms = [p for p in presets if p[0].startswith("manuscript:")]
         for p in ctx.rng.sample(ms, min(3, len(ms))):
             jobs.append((ctx.rng.choice(isos), p[0], p[1]))
+        # countries at the extremes of the input table (zero cropland, no grass, no stocks, smallest/largest population, …):
+        # the rows most likely to hit a rarely taken branch; each under the resilient-foods and the simple-adaptations presets
+        rows = pipeline.country_rows()
+        cols = ["population", "crop_kcals", "crop_area_1000ha", "grasses_baseline", "grasses_reduction_year3", "crop_reduction_year3", "aq_kcals", "dairy_cows",
+                "stocks_kcals_may", "feed_kcals", "biofuel_kcals", "max_area_fraction", "wood_pulp_tonnes", "large_animals"]
+        extreme = []
+        for c in cols:
+            vals = [(float(rows[i][c]), i) for i in isos if c in rows[i]]
+            if vals:
+                extreme += [min(vals)[1], max(vals)[1]]
+        extreme = sorted(set(extreme))
+        ctx.extra["extreme_countries"] = extreme
+        stress = [p for p in presets if p[0] in ("manuscript:recalculate_plot_1:1", "manuscript:recalculate_plot_1:4", "manuscript:recalculate_plot_1:9")]
+        for iso in extreme:
+            for p in stress:
+                jobs.append((iso, p[0], p[1]))
         others = [p for p in presets if not p[0].startswith("yaml:")]
-        while len(jobs) < 64:
+        target = len(jobs) + 40
+        while len(jobs) < target:
             p = ctx.rng.choice(others)
             jobs.append((ctx.rng.choice(isos), p[0], p[1]))
     else:
